@@ -1,13 +1,13 @@
 """C16: concurrent use of one node is race-free and loses no committed effect. The driver (built with -race) records
 invocation/return histories of concurrent calls; TLC searches for a linearization (trace/Trace_Concurrent.tla)."""
-import json, os, re
+import json, os, re, shutil
 import vlib
 
-CFG = "SPECIFICATION Spec\nINVARIANT NotAccepted\nCHECK_DEADLOCK FALSE\n"
+CFG = "SPECIFICATION Spec\nCONSTANT Mode = \"%s\"\nINVARIANT NotAccepted\nCHECK_DEADLOCK FALSE\n"
 
-def linearizable(run, hist, label):
-    st = run.tlc("Trace_Concurrent.tla", "lin_%s.cfg" % label, workers=1, timeout=900, env={"VERIF_TRACE": hist}, cfg_text=CFG,
-                 expect_violation=True, depthfirst=True, label="Trace_Concurrent(%s)" % label, extra=["-noGenerateSpecTE"])
+def linearizable(run, hist, label, mode="lin"):
+    st = run.tlc("Trace_Concurrent.tla", "%s_%s.cfg" % (mode, label), workers=1, timeout=600 if mode == "lin" else 120, env={"VERIF_TRACE": hist}, cfg_text=CFG % mode,
+                 expect_violation=True, depthfirst=True, label="Trace_Concurrent(%s,%s)" % (mode, label), extra=["-noGenerateSpecTE"])
     if "NotAccepted is violated" in st["out"]:
         return True
     if st["completed"]:
@@ -16,12 +16,22 @@ def linearizable(run, hist, label):
 
 def check(run, replay):
     thorough = run.tier == "thorough"
+    if replay:
+        # a recorded concurrent history cannot be re-executed deterministically; the replay re-validates it
+        viol = []
+        if not linearizable(run, replay, "replay", "mutex"):
+            viol.append({"property": "C16", "kind": "merges-overlap", "replay": replay, "msg": "recorded history %s: merge critical sections of one document overlap" % replay})
+        if not linearizable(run, replay, "replay", "lin"):
+            viol.append({"property": "C16", "kind": "not-linearizable", "replay": replay, "msg": "recorded history %s is not linearizable" % replay})
+        L = [json.loads(l) for l in open(replay)]
+        run.finish("model_checking", viol, {"traces_validated_against_impl": 1, "samples": [L[:8]], "rule": "re-validation of one recorded history"}, ["the history was recorded earlier; it is not re-executed"])
     binary = run.build("concrun", race=True)
     runs = 40 if thorough else 8
     viol, calls, accepted = [], 0, 0
     byres = {}
     samples = []
     races_seen = set()
+    lin_infra = []
     for i in range(runs):
         seed = run.seed * 100 + i
         hist = os.path.join(run.tmp, "hist-%d.ndjson" % i)
@@ -55,15 +65,30 @@ def check(run, replay):
                 elif e["op"] == "index" and "already exists" in e.get("err", ""):
                     kind = "index-left-behind"
                 viol.append({"property": "C16", "kind": kind, "msg": "seed %d: %s on %s returned %s: %s" % (seed, e["op"], e["d"], e["res"], e.get("err", ""))})
-        if linearizable(run, hist, str(i)):
+        if s.get("shared_txn_lost"):
+            viol.append({"property": "C16", "kind": "shared-txn-lost", "msg": "seed %d: %s" % (seed, s["shared_txn_lost"])})
+        rp = os.path.join(vlib.FOUND, "C16-history-%d.ndjson" % seed)
+        if not linearizable(run, hist, str(i), "mutex"):
+            os.makedirs(vlib.FOUND, exist_ok=True)
+            shutil.copy(hist, rp)
+            viol.append({"property": "C16", "kind": "merges-overlap", "replay": rp,
+                         "msg": "seed %d: two incoming merges of one document were inside the merge critical section at the same time (marks merge.begin / merge.end recorded by the real goroutines are not properly nested)" % seed})
+        try:
+            ok = linearizable(run, hist, str(i), "lin")
+        except vlib.Infra as e:
+            lin_infra.append(str(e)[:300])
+            continue
+        if ok:
             accepted += 1
         else:
-            rp = os.path.join(vlib.FOUND, "C16-history-%d.ndjson" % seed)
             os.makedirs(vlib.FOUND, exist_ok=True)
-            with open(rp, "w") as f:
-                f.write(open(hist).read())
+            shutil.copy(hist, rp)
             viol.append({"property": "C16", "kind": "not-linearizable", "replay": rp,
                          "msg": "seed %d: no order of the %d recorded calls explains their results (a successful effect is missing or doubled, a conflicting call had an effect, or a read saw an impossible value)" % (seed, s["calls"])})
+    if lin_infra and not viol:
+        raise vlib.Infra("linearizability search did not complete for %d histories: %s" % (len(lin_infra), lin_infra[0]))
+    if lin_infra:
+        run.notes.append("linearizability search did not complete for %d histories (other violations are reported)" % len(lin_infra))
     # dedupe
     seen, out = set(), []
     for v in viol:
